@@ -60,6 +60,20 @@ def compare_modes(flat, fn):
     return None
 
 
+def nonadjacent_same_concept(text):
+    """the trigger of F-C14-nonadjacent-group-reordered: a declaration whose keys name the same concept twice with another key in between
+    ('identified by a team, and by a day, and by a team')"""
+    for l in text.split('\n'):
+        if ' is identified by ' not in l:
+            continue
+        keys = re.findall(r'(?:identified by|and by) an? (\w+)', l.split(', and has')[0])
+        for i, k in enumerate(keys):
+            for j in range(i + 2, len(keys)):
+                if keys[j] == k and any(x != k for x in keys[i + 1:j]):
+                    return True
+    return False
+
+
 def late_concept_attribute(text, diff):
     """the trigger of F-C14-attribute-named-after-later-concept: a concept X is defined on a line AFTER a declaration that gives
     another concept an attribute named X, and the two shapes differ by a term named X"""
@@ -103,6 +117,8 @@ def run(tier, seed):
         d = compare_modes(flat, fn)
         if d and 'two shapes' in d and 'F-C14-attribute-named-after-later-concept' in findings and late_concept_attribute(text, d):
             rep.known_finding('F-C14-attribute-named-after-later-concept', findings['F-C14-attribute-named-after-later-concept']['summary'])
+        elif d and 'flattening gives' in d and 'F-C14-nonadjacent-group-reordered' in findings and nonadjacent_same_concept(text):
+            rep.known_finding('F-C14-nonadjacent-group-reordered', findings['F-C14-nonadjacent-group-reordered']['summary'])
         elif d:
             rep.violation('function-term mode is not the default program with wrapped groups: ' + d, dict(text=text, default=flat, with_functions=fn))
     # the command-line option must select the same mode as the API flag
